@@ -351,6 +351,12 @@ def emulator_family(env, tier="quick"):
         fam.append({"name": "n%d/near_boundary_lossy" % n, "n": n,
                     "ops": [("bs", 0, n - 1, env.R2, "Rx", 0), ("loss", 0, eps), ("bs", n - 1, 0, 1 - eps, "Rx", 0),
                             ("loss", n - 1, 1 - eps), ("bs", 0, n - 1, env.R[1], "H", 0)]})
+        if n >= 3:
+            # a tiny matrix element (|u|^2 just below the 1e-9 truncation) that interferes IN PHASE with an order-one
+            # amplitude: dropping it moves a probability by ~1e-5
+            fam.append({"name": "n%d/near_boundary_inphase" % n, "n": n,
+                        "ops": [("bs", 0, 2, 1 - 9e-10, "Rx", 0), ("ps", 2, math.pi / 2, 0), ("bs", 0, 1, 0.5, "Rx", 0),
+                                ("bs", 1, 2, 0.5, "Rx", 0)]})
         # pure re-routing: the full unitary is a phased permutation matrix (one non-zero entry per row)
         cyc = tuple((m, (m + 1) % n) for m in range(n))
         fam.append({"name": "n%d/perm" % n, "n": n,
